@@ -514,7 +514,9 @@ impl Space for Repeats {
 }
 
 pub fn child(space_name: &str, id: u64) -> i32 {
-    for tier in ["quick", "thorough"] {
+    let first = std::env::var("VERIF_TIER").unwrap_or_else(|_| "quick".into());
+    let other = if first == "thorough" { "quick" } else { "thorough" };
+    for tier in [first.as_str(), other] {
         for s in repeat_spaces(tier) {
             if s.name() == space_name {
                 let (p, mut ss) = s.src.case_of(id / 3);
